@@ -29,6 +29,7 @@ def run(rep, prog, tier):
     rep.rule('C09.5', 'timestamp idioms (writer UTC-correct, reader aware UTC)', floor=7)
     rep.rule('C09.6', 'subpacket header octets', floor=4)
     rep.rule('C09.7', 'integer/octet primitives', floor=3)
+    rep.rule('C09.8', 'packet tag octet: writer and reader agree for every tag, format and length type; partial-length accumulation', floor=5)
     rep.assume('guard and formula expressions are folded by the checker\'s own integer evaluator at RFC boundary values; no repo code runs')
 
     H = prog.cls('pgpy.types', 'Header')
@@ -39,6 +40,7 @@ def run(rep, prog, tier):
     times(rep, prog)
     subpacket_header(rep, prog)
     primitives(rep, prog)
+    tag_octet(rep, prog)
 
 
 def _nested(fn_node, name):
@@ -380,3 +382,92 @@ def primitives(rep, prog):
     f = P.methods.get('bytes_to_int')
     for s in Interp(prog, Scenario(inline=noinline, args={'order': Const('big')})).run(f):
         rep.check(render(s.ret) == "int.from_bytes(b, 'big')", 'C09.7', 'PGPObject.bytes_to_int', render(s.ret), 'big-endian octets to integer', where=f.where)
+
+
+def tag_octet(rep, prog):
+    PH = prog.cls('pgpy.packet.types', 'Header')
+    hb = PH.methods['__bytearray__']
+    exprs = {}
+    for lf in (0, 1):
+        for s in Interp(prog, Scenario(bind={'self._lenfmt': Const(lf)}, inline=noinline)).run(hb):
+            its = merge_consts(s.ret.items) if isinstance(s.ret, Bytes) else []
+            if not its or its[0][0] != 'INT' or its[0][1] != '1':
+                raise AnalysisError('packet Header.__bytearray__: first term is not the one-octet tag')
+            try:
+                exprs[lf] = ast.parse(its[0][2], mode='eval').body
+            except SyntaxError:
+                raise AnalysisError('packet Header.__bytearray__: tag expression not parseable: %s' % its[0][2])
+    try:
+        bad = None
+        for tag in range(64):
+            o = fold(exprs[1], {'self.tag': tag})
+            if o != (0xC0 | tag):
+                bad = ('new', tag, o, 0xC0 | tag)
+                break
+        rep.check(bad is None, 'C09.8', 'packet Header.__bytearray__', 'new-format tag octet %s' % (bad,), 'a new-format tag octet is 0xC0 | tag (RFC 4880 4.2)',
+                  where=hb.where, found=ast.unparse(exprs[1]))
+        bad = None
+        for tag in range(16):
+            for llen, lt in ((1, 0), (2, 1), (4, 2), (0, 3)):
+                o = fold(exprs[0], {'self.tag': tag, 'self.llen': llen})
+                if o != (0x80 | (tag << 2) | lt):
+                    bad = ('old', tag, llen, o, 0x80 | (tag << 2) | lt)
+                    break
+            if bad:
+                break
+        rep.check(bad is None, 'C09.8', 'packet Header.__bytearray__', 'old-format tag octet %s' % (bad,),
+                  'an old-format tag octet is 0x80 | tag << 2 | length-type (RFC 4880 4.2)', where=hb.where, found=ast.unparse(exprs[0]))
+    except _NoFold as ex:
+        raise AnalysisError('packet Header tag expression not foldable: %s' % ex)
+    # reader
+    hp = PH.methods['parse']
+    asg = {}
+    for n in ast.walk(hp.node):
+        if isinstance(n, ast.Assign) and isinstance(n.targets[0], ast.Attribute):
+            asg.setdefault(n.targets[0].attr, n.value)
+    ti = PH.props['tag'].setters.get('int')
+    tval = None
+    for n in ast.walk(ti.node):
+        if isinstance(n, ast.Assign) and isinstance(n.targets[0], ast.Name) and n.targets[0].id == '_tag':
+            tval = n.value
+    if '_lenfmt' not in asg or 'llen' not in asg or tval is None or ast.unparse(asg.get('tag')) != 'packet[0]':
+        raise AnalysisError('packet Header.parse / tag_int: unrecognised shape')
+    pv = ti.params[1]
+    try:
+        bad = None
+        for o in range(0x80, 0x100):
+            lf = fold(asg['_lenfmt'], {'packet[0]': o})
+            t = fold(tval, {pv: o, 'self._lenfmt': lf})
+            want_lf = (o >> 6) & 1
+            want_t = (o & 0x3F) if want_lf else ((o >> 2) & 0x0F)
+            lt = fold(asg['llen'], {'packet[0]': o})
+            if lf != want_lf or t != want_t or (not want_lf and lt != (o & 3)):
+                bad = (hex(o), lf, t, lt)
+                break
+        rep.check(bad is None, 'C09.8', 'packet Header.parse', 'tag octet decode %s' % (bad,),
+                  'bit 6 selects the format; new format: tag = low six bits; old format: tag = bits 5..2, length type = bits 1..0', where=hp.where)
+    except _NoFold as ex:
+        raise AnalysisError('packet Header.parse expression not foldable: %s' % ex)
+    ifs = [n for n in ast.walk(hp.node) if isinstance(n, ast.If) and any(ast.unparse(x) == 'self.length = packet' for x in n.body)]
+    ok = len(ifs) == 1
+    if ok:
+        try:
+            tbl = {(lf, ll): bool(fold(ifs[0].test, {'self._lenfmt': lf, 'self.llen': ll})) for lf in (0, 1) for ll in (0, 1, 2, 4)}
+            ok = tbl == {(0, 0): False, (0, 1): True, (0, 2): True, (0, 4): True, (1, 0): True, (1, 1): True, (1, 2): True, (1, 4): True}
+        except _NoFold:
+            ok = False
+        ok = ok and any(ast.unparse(x).replace(' ', '') == 'self.length=len(packet)' for x in ifs[0].orelse)
+    rep.check(ok, 'C09.8', 'packet Header.parse', 'length present unless old-format type 3', 'an old-format header of length type 3 has no length field: '
+              'the body runs to the end of the data; every other header carries a length', where=hp.where)
+    # partial body lengths: each chunk header is removed where it sits and the chunk lengths add up
+    lb = None
+    for tn, f in prog.cls('pgpy.types', 'Header').props['length'].setter_order:
+        if tn in ('bytes', 'bytearray'):
+            lb = f
+    nl = _nested(lb.node, '_new_len')
+    t = ast.unparse(nl).replace(' ', '') if nl else ''
+    ok = 'part_len,size,partial=_parse_len(b)' in t and 'delb[:size]' in t and 'total=part_len' in t and 'whilepartial:' in t and \
+        'part_len,size,partial=_parse_len(b,total)' in t and 'delb[total:total+size]' in t and 'total+=part_len' in t and 'self._len=total' in t and \
+        t.index('delb[total:total+size]') < t.index('total+=part_len')
+    rep.check(ok, 'C09.8', 'Header.length_bin._new_len', 'partial-length accumulation', 'after a partial chunk the next length field sits `total` octets in; it is '
+              'removed there (all its octets) and the chunk lengths add up to the body length', where=lb.where)
